@@ -39,4 +39,18 @@ theorem C18_version_variant (ns name : Bytes) :
   unfold uuidV5
   rw [h]
 
+/-- the namespace is the version-5 UUID of "guardsquare.com" in the DNS namespace, evaluated by
+    the kernel (80 SHA-1 rounds; no `native_decide`): 4f44f30f-24be-53d0-bab6-f47c7120ad6c -/
+theorem C18_namespace :
+    uuidV5 nsDNS litGuardsquare =
+      [0x4f, 0x44, 0xf3, 0x0f, 0x24, 0xbe, 0x53, 0xd0, 0xba, 0xb6, 0xf4, 0x7c, 0x71, 0x20, 0xad, 0x6c] := by
+  decide +kernel
+
+/-- the identifier of the empty mapping, evaluated by the kernel:
+    0e71d76c-5067-5a02-a5d9-7e81070eb125 -/
+theorem C18_empty :
+    mappingUuid [] =
+      [0x0e, 0x71, 0xd7, 0x6c, 0x50, 0x67, 0x5a, 0x02, 0xa5, 0xd9, 0x7e, 0x81, 0x07, 0x0e, 0xb1, 0x25] := by
+  decide +kernel
+
 end PG
